@@ -1,6 +1,7 @@
 package loadbalancer
 
 import (
+	"github.com/0xReLogic/Helios/internal/config"
 	"net"
 	"net/http"
 	"time"
@@ -155,4 +156,52 @@ func VerifC20Concurrent(pair int) {
 	}
 	p.Shutdown()
 	verifrt.Assert(!kept || b.closed, "Shutdown closes every connection the pool accepted")
+}
+
+// VerifC20Wiring: the pool as the balancer builds it from the configuration
+// (real validation, real setupWebSocketPool): for every accepted websocket_pool
+// section (max_idle 1..3, max_active 0 = unlimited..4, idle_timeout 1..600 s)
+// at most the configured max_idle connections are kept idle per backend, a
+// connection is handed out again within the configured idle_timeout and never
+// after it.
+func VerifC20Wiring() {
+	cfg := &config.Config{}
+	cfg.Server.Port = 8080
+	cfg.Backends = []config.BackendConfig{{Name: "b0", Address: "http://b0:80"}}
+	p := &cfg.LoadBalancer.WebSocketPool
+	p.Enabled = true
+	p.MaxIdle = verifrt.IntRange("max_idle", 1, 3)
+	p.MaxActive = verifrt.IntRange("max_active", 0, 4)
+	p.IdleTimeoutSeconds = verifrt.IntRange("idle_timeout_seconds", 1, 600)
+	verifrt.Assume(cfg.Validate() == nil)
+	lb := verifBareLB(0)
+	lb.setupWebSocketPool(cfg)
+	verifrt.Settle()
+	pool := lb.wsPool
+	verifrt.Assert(pool != nil, "an enabled pool is built")
+	kept := 0
+	conns := make([]*verifConn, 4)
+	for i := range conns {
+		conns[i] = &verifConn{id: i}
+		if pool.Put("b0", conns[i]) {
+			kept++
+		} else {
+			verifrt.Assert(conns[i].closed, "a connection the pool does not keep is closed")
+		}
+	}
+	idle, _ := pool.Stats("b0")
+	want := p.MaxIdle
+	if want > 4 {
+		want = 4
+	}
+	verifrt.Assert(kept == want && idle == want, "exactly the configured max_idle connections are kept idle per backend")
+	early := verifrt.Bool("withinIdleTimeout")
+	if early {
+		verifrt.Advance(time.Duration(p.IdleTimeoutSeconds)*time.Second - time.Nanosecond)
+		verifrt.Assert(pool.Get("b0") != nil, "an idle connection younger than the configured idle_timeout is handed out")
+	} else {
+		verifrt.Advance(time.Duration(p.IdleTimeoutSeconds)*time.Second + time.Nanosecond)
+		verifrt.Assert(pool.Get("b0") == nil, "a connection idle longer than the configured idle_timeout is never handed out")
+	}
+	lb.wsPool.Shutdown()
 }
